@@ -194,7 +194,8 @@ type ringSock interface {
 	ReadPacketData() ([]byte, gopacket.CaptureInfo, error)
 }
 
-func ringRead(s ringSock, copying bool, isTimeout func(error) bool) RingObs {
+// frames with an id <= after belong to an earlier sequence (a late softirq) and are skipped
+func ringRead(s ringSock, copying bool, after uint32, isTimeout func(error) bool) RingObs {
 	for tries := 0; tries < 50; tries++ {
 		var d []byte
 		var ci gopacket.CaptureInfo
@@ -211,8 +212,8 @@ func ringRead(s ringSock, copying bool, isTimeout func(error) bool) RingObs {
 			return RingObs{Kind: "err:" + err.Error()}
 		}
 		id, ok := ringID(d)
-		if !ok {
-			continue // a frame that is not ours (link chatter)
+		if !ok || id <= after {
+			continue // a frame that is not ours (link chatter) or not of this sequence
 		}
 		return RingObs{Kind: "frame", ID: id, Len: len(d), Cap: cap(d), CapLen: ci.CaptureLength, WireLen: ci.Length}
 	}
@@ -231,6 +232,7 @@ func (l *RingLab) RunReal(seq string) ([]RingObs, error) {
 	}
 	defer s.Close()
 	var out []RingObs
+	base := l.seq
 	for _, op := range seq {
 		switch op {
 		case 'a', 'b', 'L':
@@ -249,7 +251,7 @@ func (l *RingLab) RunReal(seq string) ([]RingObs, error) {
 		case 'R', 'r':
 			// the ring hands a block over when it is full or its timeout (1 ms here) has passed
 			time.Sleep(3*ringBlockTO + l.Settle)
-			out = append(out, ringRead(s, op == 'r', func(e error) bool { return e == realafp.ErrTimeout }))
+			out = append(out, ringRead(s, op == 'r', base, func(e error) bool { return e == realafp.ErrTimeout }))
 		}
 	}
 	return out, nil
@@ -299,7 +301,7 @@ func RunModel(seq string, firstID uint32) ([]RingObs, error) {
 				return nil, err
 			}
 		case 'R', 'r':
-			out = append(out, ringRead(t, op == 'r', func(e error) bool { return e == ErrTimeout }))
+			out = append(out, ringRead(t, op == 'r', firstID, func(e error) bool { return e == ErrTimeout }))
 		}
 	}
 	return out, nil
